@@ -298,6 +298,7 @@ func (g *Gen) verifyFunc(fn *ssa.Function, fc *FuncContract) (obs []*Obligation,
 			}
 		}
 	}
+	c.assignOrdinals()
 	// watched effect counters
 	for _, cl := range allClauses(fc) {
 		collectWatches(cl.E, c.watch)
@@ -531,4 +532,62 @@ func (g *Gen) lemmaObligation(l *LemmaDef) (ob *Obligation) {
 	ob.Size = len(ob.Script)
 	ob.Goal = t
 	return ob
+}
+
+// assignOrdinals numbers calls (per callee), stores (per field) and returns in SOURCE order, so that
+// anchors such as "call X#2" and "return#3" mean the 2nd/3rd occurrence as written in the function.
+func (c *FnCtx) assignOrdinals() {
+	c.callOrdOf = map[ssa.Instruction]int{}
+	c.retOrdOf = map[ssa.Instruction]int{}
+	c.storeOrdOf = map[ssa.Instruction]int{}
+	type ent struct {
+		in  ssa.Instruction
+		key string
+	}
+	var calls, rets, stores []ent
+	for _, b := range c.fn.Blocks {
+		for _, in := range b.Instrs {
+			switch x := in.(type) {
+			case *ssa.Call:
+				if n, _ := c.calleeName(&x.Call); n != "" {
+					calls = append(calls, ent{in, shortName(n)})
+				}
+			case *ssa.Defer:
+				if n, _ := c.calleeName(&x.Call); n != "" {
+					calls = append(calls, ent{in, shortName(n)})
+				}
+			case *ssa.Go:
+				if n, _ := c.calleeName(&x.Call); n != "" {
+					calls = append(calls, ent{in, shortName(n)})
+				}
+			case *ssa.Return:
+				rets = append(rets, ent{in, ""})
+			case *ssa.Store:
+				if fa, ok := x.Addr.(*ssa.FieldAddr); ok {
+					if pt, ok := fa.X.Type().Underlying().(*types.Pointer); ok {
+						if st, ok := pt.Elem().Underlying().(*types.Struct); ok {
+							stores = append(stores, ent{in, typeName(pt.Elem()) + "." + st.Field(fa.Field).Name()})
+						}
+					}
+				}
+			}
+		}
+	}
+	number := func(es []ent, out map[ssa.Instruction]int) {
+		sort.SliceStable(es, func(i, j int) bool {
+			pi, pj := es[i].in.Pos(), es[j].in.Pos()
+			if pi != pj {
+				return pi < pj
+			}
+			return es[i].in.Block().Index < es[j].in.Block().Index
+		})
+		cnt := map[string]int{}
+		for _, e := range es {
+			cnt[e.key]++
+			out[e.in] = cnt[e.key]
+		}
+	}
+	number(calls, c.callOrdOf)
+	number(rets, c.retOrdOf)
+	number(stores, c.storeOrdOf)
 }
